@@ -269,6 +269,37 @@ func c10Wide(c *fw.Ctx, idx int) {
 			e, p = [2]float64{0, v}, [2]float64{0, w}
 		}
 	}
+	if r.Chance(1, 4) {
+		// one huge point on the line through the origin with a small integer
+		// direction, two small points on a parallel line next to the origin: the
+		// determinant is the small integer -(o x p) whatever the size of the huge
+		// point (2^60 .. 2^330, mantissas of up to 30 bits, or a power of ten)
+		dx, dy := float64(r.Range(-9, 9)), float64(r.Range(-9, 9))
+		if dx == 0 && dy == 0 {
+			dx = 1
+		}
+		X := math.Ldexp(float64(r.Range(1, 1<<uint(r.Range(1, 30)))), r.Range(60, 300))
+		if r.Chance(1, 4) {
+			X = math.Pow(10, float64(r.Range(20, 99)))
+		}
+		e = [2]float64{X * dx, X * dy}
+		o = [2]float64{float64(r.Range(-12, 12)), float64(r.Range(-12, 12))}
+		m := float64(r.Range(-5, 5))
+		if m == 0 {
+			m = 1
+		}
+		p = [2]float64{o[0] + m*dx, o[1] + m*dy}
+		for _, v := range []float64{e[0], e[1]} {
+			if math.IsInf(v, 0) || math.Abs(v) > 1e100 {
+				c.Count("skipped_out_of_band")
+				return
+			}
+		}
+		c.Count("wide_span_triples")
+		c.Count("wide_span_one_huge_point_two_small_ones")
+		c10Check(c, [3][2]float64{o, e, p}, "wide-span")
+		return
+	}
 	lo := r.Range(-100, hi-1)
 	if lo > 60 {
 		lo = r.Range(-100, 0)
